@@ -45,6 +45,15 @@ def run(R):
             enc += [ac.inc_history(R, rounds, key, nonce, aad, pt, "enc", k_aad=R.rng.choice([1, 2, 3]), k_data=R.rng.choice([1, 2, 3])) for _ in range(2)]
         meta[h1["id"]] = (rounds, key, nonce, aad, pt)
         R.count(("enc", rounds, kl, a, p), trivial=(a == 0 and p == 0))
+    # plaintexts crafted so that the ciphertext drives the Poly1305 limb code through its rare carry / select classes under the one-time key of the
+    # (key, nonce) pair: the tag's final reduction, the carry chains, the wrap-around - for keys of full size, through the AEAD interface
+    crafted = [] if R.collect else ac.crafted_cases(R, 6 if thorough else 2, "c06")
+    for (rounds, key, nonce, aad, pt, cls, otk, macdata) in crafted:
+        h1 = ac.one_history(R, rounds, key, nonce, aad, pt, "enc")
+        h2 = ac.inc_history(R, rounds, key, nonce, aad, pt, "enc", k_aad=2, k_data=R.rng.choice([1, 2, 3]))
+        enc += [h1, h2]
+        meta[h1["id"]] = (rounds, key, nonce, aad, pt)
+        R.count(("enc-crafted", cls, rounds, len(key), len(aad)))
     res = R.conform("TraceAead", enc, cost=ac.cost_aead, describe=ac.describe, label="TraceAead.enc")
     # phase 2: decrypt what the implementation produced
     dec = []
@@ -58,6 +67,7 @@ def run(R):
         dec.append(ac.inc_history(R, rounds, key, nonce, aad, ct, "dec", tag, k_aad=R.rng.choice([1, 2, 3]), k_data=R.rng.choice([1, 2, 3])))
         R.count(("dec", rounds, len(key), len(aad), len(ct)), trivial=(not aad and not ct))
     res2 = R.conform("TraceAead", dec, cost=ac.cost_aead, describe=ac.describe, label="TraceAead.dec")
+    ac.confirm_crafted(R, crafted)
     R.rule = ("phase 1: one-shot encrypt + incremental encryption (seeded partitions into <=3 add_data and <=3 encrypt/encrypt_mut calls) per (rounds, key length, |aad|, |pt|) with lengths from "
               "{0,1,15,16,17,63,64,65} (" + ("all 289 pairs of 17 lengths, 3 partitions each, 40 seeded long messages" if thorough else "a covering subset") + " per key length) + rounds 8/12 + seeded long; phase 2: one-shot and incremental decryption "
               "(decrypt / decrypt_mut) of the observed ciphertext and tag; distinct = (phase, rounds, key length, lengths); non-trivial = not both empty")
